@@ -439,6 +439,62 @@ class _HostSortedList(Host):
     def __contains__(self, x):
         return x in self._xs
 
+    def __delitem__(self, i):
+        del self._xs[i]
+
+    def __bool__(self):
+        return bool(self._xs)
+
+    def __reversed__(self):
+        return iter(list(self._xs)[::-1])
+
+    def __eq__(self, other):
+        return list(self._xs) == list(other) if isinstance(other, (_HostSortedList, list, tuple)) else False
+
+    __hash__ = None
+
+    def __repr__(self):
+        return f'{type(self).__name__.replace("_Host", "")}({self._xs!r})'
+
+    def update(self, iterable):
+        for x in iterable:
+            self.add(x)
+
+    def clear(self):
+        self._xs.clear()
+
+    def copy(self):
+        new = type(self)()
+        new._xs = list(self._xs)
+        return new
+
+    def count(self, x):
+        return self._xs.count(x)
+
+    def index(self, x, *a):
+        try:
+            return self._xs.index(x, *a)
+        except ValueError:
+            raise InterpRaise('ValueError')
+
+    def bisect_left(self, x):
+        import bisect
+        return bisect.bisect_left(self._xs, x)
+
+    def bisect_right(self, x):
+        import bisect
+        return bisect.bisect_right(self._xs, x)
+
+    bisect = bisect_right
+
+    def islice(self, start=None, stop=None, reverse=False):
+        xs = self._xs[start:stop]
+        return iter(xs[::-1] if reverse else xs)
+
+    def irange(self, minimum=None, maximum=None, inclusive=(True, True), reverse=False):
+        xs = [x for x in self._xs if (minimum is None or (x >= minimum if inclusive[0] else x > minimum)) and (maximum is None or (x <= maximum if inclusive[1] else x < maximum))]
+        return iter(xs[::-1] if reverse else xs)
+
 
 class _HostSortedSet(_HostSortedList):
     """sortedcontainers.SortedSet: the same, without repeated elements."""
